@@ -281,4 +281,12 @@ Definition holds_C14_price (some_inactive needed_inactive ok base_ok same_as_bas
   (negb (some_inactive && ok) || (base_ok && same_as_base)) &&
   (ok || negb changed).
 
+(* KNOWN FINDING C14-F1 (reproduced on the real code): auctionsV2 PlaceDutchAuctionBid reads the debt
+   asset's TimeWeightedAverage record directly and discards both the found flag and IsPriceActive
+   (x/auctionsV2/keeper/bid.go:32), so MsgPlaceMarketBid on an auction whose debt price comes from
+   the oracle succeeds, valued at the last recorded price, while that feed is inactive.  The class:
+   that handler, a needed feed inactive, success with the very outcome of the all-active run. *)
+Definition kf_C14_bid_stale_debt_price (n : string) (needed_inactive ok base_ok same_as_base : bool) : bool :=
+  String.eqb n "auctionsV2.MsgPlaceMarketBid" && needed_inactive && ok && base_ok && same_as_base.
+
 Definition holds_C14_sweep (breaker started : bool) : bool := negb (breaker && started).
